@@ -149,6 +149,13 @@ def worker_main(argv: list[str]) -> int:
 
     cid, seed, tier, widx, nworkers, budget, outfile = argv[0], int(argv[1]), argv[2], int(argv[3]), int(argv[4]), float(argv[5]), argv[6]
     faulthandler.enable()
+    try:
+        # one task runs at a time: keep the baton-passing threads on one core (cross-core
+        # wake-ups cost 3-10x here); workers are spread over the available cores
+        cpus = sorted(os.sched_getaffinity(0))
+        os.sched_setaffinity(0, {cpus[widx % len(cpus)]})
+    except (AttributeError, OSError):
+        pass
     faulthandler.dump_traceback_later(budget + 120, exit=True)
     check = load_check(cid)
     import optuna
